@@ -460,6 +460,41 @@ func memSystem(rng *rand.Rand) SysCfg {
 	return cfg
 }
 
+// expectedEntities lists the names every registered entity of a system must be saved under.
+func expectedEntities(cfg SysCfg) map[string]bool {
+	want := map[string]bool{"build_id": true, "entities/Engine": true, "entities/IDGenerator": true}
+	for _, k := range cfg.Conns {
+		want["entities/"+k.Name] = true
+	}
+	for _, c := range cfg.Comps {
+		want["entities/"+c.Name] = true
+		if c.Kind == "mem" {
+			want["entities/"+c.Name+".Storage"] = true
+		}
+		for _, p := range c.Ports {
+			want["entities/"+p.Name] = true
+		}
+	}
+	return want
+}
+
+func inventoryDiff(cfg SysCfg, arch map[string][]byte) (missing, extra []string) {
+	want := expectedEntities(cfg)
+	for n := range want {
+		if _, ok := arch[n]; !ok {
+			missing = append(missing, n)
+		}
+	}
+	for n := range arch {
+		if !want[n] {
+			extra = append(extra, n)
+		}
+	}
+	sort.Strings(missing)
+	sort.Strings(extra)
+	return
+}
+
 func registerCkpt() {
 	reg.Register("ckpt_proc", func(raw json.RawMessage) (any, error) {
 		var in procIn
@@ -518,6 +553,12 @@ func registerCkpt() {
 				continue
 			}
 			entities += len(refFinal)
+			// inventory: the archive holds exactly one payload per registered entity
+			// (engine, ID generator, every component, port, connection, resource) and nothing else
+			if miss, extra := inventoryDiff(cfg, refFinal); len(miss)+len(extra) > 0 {
+				mm = append(mm, ckMismatch{System: si, Cut: -1, Kind: "inventory", Class: "real",
+					Detail: fmt.Sprintf("archive entries differ from the registered entities: missing %v, unexpected %v", miss, extra), Config: cfg})
+			}
 			times := actTimes(ref)
 			if in.MaxCuts > 0 && len(times) > in.MaxCuts {
 				rng.Shuffle(len(times), func(i, j int) { times[i], times[j] = times[j], times[i] })
